@@ -876,7 +876,7 @@ def prove(facts, goal_t, timeout_ms):
         s.add(f)
     s.add(neg)
     t0 = time.time()
-    r = str(s.check())
+    r = core.safe_check(s)
     m = s.model() if r == 'sat' else None
     if CROSS['on'] and r in ('sat', 'unsat'):
         t1 = time.time()
@@ -904,7 +904,7 @@ def prove(facts, goal_t, timeout_ms):
                 if z3.is_algebraic_value(v):
                     continue
                 s2.add(d() == v)
-        if str(s2.check()) == 'sat':
+        if core.safe_check(s2) == 'sat':
             m = s2.model()
     dt = time.time() - t0
     return r, m, dt, s
